@@ -177,10 +177,18 @@ def program_src(prog):
     if '"structq"' in json.dumps([prog["functions"], prog["globals"]]):
         out.append("struct Q { P p; int[2] a; int z; }\n")
     for name, t in prog["globals"]:
-        out.append(f"{type_src(t)} {name};\n")
+        out.append(_global_src(prog, name, t))
     for f in prog["functions"]:
         out.append(function_src(f))
     return "".join(out)
+
+
+def _global_src(prog, name, t):
+    """A global declaration; scalar globals may carry a literal initialiser (the host sets every
+    global before it invokes anything, so whether the implementation honours it makes no difference
+    to the history - unless it is applied again later)."""
+    init = (prog.get("ginit") or {}).get(name)
+    return f"{type_src(t)} {name}" + (f" = {init!r}" if init is not None else "") + ";\n"
 
 
 def two_module_src(prog):
@@ -190,7 +198,7 @@ def two_module_src(prog):
     structs = "struct P { int x; float y; }\n"
     if '"structq"' in json.dumps([prog["functions"], prog["globals"]]):
         structs += "struct Q { P p; int[2] a; int z; }\n"
-    lib = structs + "".join(f"{type_src(t)} {name};\n" for name, t in prog["globals"])
+    lib = structs + "".join(_global_src(prog, name, t) for name, t in prog["globals"])
     lib += "export function glib_id(int a) -> int {\n  return a;\n}\n"
     main = 'import "glib";\n' + structs + "".join(function_src(f) for f in prog["functions"])
     return lib, main
